@@ -23,7 +23,7 @@ PROP = {
         "system bytes of registered calls are unique (key = call id); uniqueness modulo 2^32 is C06's lemma",
         "'promptly' is a runtime bound: the harness asserts release within closeTimeout + 3 s slack; the theorem covers which completions are possible and that ConnClosed is enabled",
         "e2e acceptance generation = number of successful dials - 1 sampled before the call and again inside writeFrame on the caller's goroutine; calls for which the two differ are judged leniently (counted in the histogram as ambiguous-acceptance)",
-        "both transports: pass 0 runs HSMS-SS (active, all causes), pass 1 runs SECS-I over TCP (active, equipment role, causes: peer close, Close, retry exhaustion) against an independent single-block E4 peer; passive roles are not exercised",
+        "both transports: pass 0 runs HSMS-SS (active, all causes), pass 1 runs SECS-I over TCP (active, equipment role, causes: peer close, Close, retry exhaustion) against an independent single-block E4 peer; the passive HSMS-SS role is exercised by the accept-racing-teardown scenarios (harness-owned listener, public WithListener: a connection handed out just before / from inside / after the listener Close); passive SECS-I is not exercised",
         "M lines (deterministic scenarios) are compared for equality with the model run modulo the position of T events (T g is where the peer of g noticed the end, not the instant of the library's teardown)",
     ],
 }
